@@ -45,6 +45,7 @@ def run(ctx) -> None:
     for kind in ("add", "remove"):
         ctx.guard(f"C02.guard-{kind}", guard, kind)
         ctx.guard("C02.nonneg", nonneg, kind)
+        ctx.guard("C02.prelimit", prelimit, kind)
     ctx.guard("C02.ctor", ctor)
     ctx.guard("C02.no-swallow", no_swallow)
     ctx.guard("C02.funnel", funnel)
@@ -212,6 +213,12 @@ def guard(ctx, kind: str) -> None:
                 f"dominating guard `{stmt_key(g['atom'])}` has canonical form `{g['canon']}` but the value written requires `{g['expected']}` "
                 "(wrong strictness, wrong limit, or not the value that is stored)", where=w, canon=g["canon"], expected=g["expected"])
             continue
+        if g["status"] == "inexact":
+            ctx.rep.refuted(
+                rule, c,
+                f"dominating guard `{stmt_key(g['atom'])}` is algebraically `{g['canon']}` but does not compare the stored value itself with self.{'max' if kind == 'add' else 'min'}_volume: "
+                "it is a different floating-point computation, so a result one ulp beyond the limit can pass the guard and be stored", where=w, canon=g["canon"])
+            continue
         # the other outcome of that branch must raise the right exception
         gr = guard_raises(fv, g["branch"], g["polarity"])
         if gr is None:
@@ -252,6 +259,123 @@ def nonneg(ctx, kind: str) -> None:
             continue
         verdict, detail = _nonneg_fact(fv, st.node, vol_seq)
         ctx.rep.check(verdict, rule, c, detail, detail, where=w)
+
+
+def _vol_seq(fv, st):
+    for sq in LL.loop_sequences(fv, st.loop_head):
+        if key(_elem(st.loop_head, sq)) in st.delta.symbols():
+            return sq
+    return None
+
+
+def prelimit(ctx, kind: str) -> None:
+    """Before the limit comparison no other check may turn away an amount that the property's domain contains
+    (any value >= 0 up to +inf): such an amount has to end in VolumeOverflowError / VolumeUnderflowError."""
+    rule = "C02.prelimit"
+    from ..guards import raising_terms
+
+    f = ctx.prog.require_func(f"Labware.{kind}", rule)
+    fv = ctx.fv(f)
+    X = ast.Name(id="§x", ctx=ast.Load())
+    kx = key(X)
+    for st in LL.analyse_stores(ctx, fv):
+        if not st.element_store or st.delta is None or st.loop_head is None:
+            continue
+        vol_seq = _vol_seq(fv, st)
+        if vol_seq is None:
+            continue
+        base = strip_norm(vol_seq)
+        elem_k = key(_elem(st.loop_head, vol_seq))
+        n_terms = 0
+
+        def mentions(e):
+            # occurrences of the amounts outside len(...)
+            class V(ast.NodeVisitor):
+                hit = False
+
+                def visit_Call(self, c):
+                    if call_fname(c) in ("len", "shape", "size", "ndim"):
+                        return
+                    self.generic_visit(c)
+
+                def visit_Attribute(self, a):
+                    if a.attr in ("shape", "size", "ndim"):
+                        return
+                    self.generic_visit(a)
+
+                def generic_visit(self, n):
+                    if key(n) == key(base) or key(n) == elem_k:
+                        self.hit = True
+                        return
+                    super().generic_visit(n)
+
+            v = V()
+            v.visit(e)
+            return v.hit
+
+        def classify(c: Cmp):
+            """c: the per-element condition under which the check raises.  -> ('ok'|'bad'|'unknown', why)"""
+            if c is None or c.rel in ("==", "!="):
+                return "unknown", "not an ordering comparison"
+            lin = c.poly.terms.get((kx,))
+            if lin is None or any(kx in m and m != (kx,) for m in c.poly.terms):
+                return "unknown", "not linear in the amount"
+            rest = Poly({m: v for m, v in c.poly.terms.items() if m != (kx,)}, c.poly.names)
+            if lin < 0:
+                if rest.is_zero():
+                    return ("ok", "rejects negative amounts only") if c.rel == ">" else ("bad", "rejects the amount 0, which the property allows")
+                if rest.is_const():
+                    return ("ok", "rejects negative amounts only") if rest.const_value() < 0 else ("bad", f"rejects valid amounts below {rest.pretty()}")
+                return "unknown", f"lower bound `{rest.pretty()}` on the amount"
+            return "bad", f"turns away every amount above `{(-rest).pretty() if not rest.is_zero() else '0'}` with its own exception, so huge amounts never reach the limit comparison"
+
+        for term, n, cls in raising_terms(fv, st.node):
+            if cls.startswith("Volume"):
+                continue
+            for a in term:
+                if not mentions(a.expr):
+                    continue
+                n_terms += 1
+                c_id = f"{f.qualname}/{stmt_key(n.ast)[:60]}"
+                w = f.where(n.ast)
+                verdict, why = "unknown", "unrecognised form"
+                if a.kind == "agg":
+                    inner = a.inner_expr
+                    raises_if_some = (a.agg == "any" and a.pol) or (a.agg == "all" and not a.pol)
+                    if not raises_if_some:
+                        verdict, why = "bad", "rejects unless some/all amounts satisfy a condition"
+                    elif isinstance(inner, ast.Compare) and len(inner.ops) == 1 and (same_seq(inner.left, vol_seq) or same_seq(inner.comparators[0], vol_seq)):
+                        cm = to_cmp(_scalarise(inner, vol_seq), a.agg == "any")
+                        verdict, why = classify(cm)
+                    elif isinstance(inner, ast.Call) and call_fname(inner) in ("isfinite", "isinf", "isnan", "isneginf", "isposinf") and inner.args and same_seq(inner.args[0], vol_seq):
+                        fn = call_fname(inner)
+                        if (fn, a.agg) in (("isnan", "any"), ("isneginf", "any")):
+                            verdict, why = "ok", "rejects NaN / -inf only"
+                        elif (fn, a.agg) in (("isfinite", "all"), ("isinf", "any"), ("isposinf", "any")):
+                            verdict, why = "bad", "rejects +inf amounts, which the property requires to end in the limit violation"
+                elif a.kind == "cmp":
+                    sub = _replace_key(a.expr, elem_k, X)
+                    verdict, why = classify(to_cmp(sub, a.pol))
+                msg = f"`{stmt_key(n.ast)[:80]}` ({cls}) {why}"
+                if verdict == "ok":
+                    ctx.rep.holds(rule, c_id, msg, where=w)
+                elif verdict == "bad":
+                    ctx.rep.refuted(rule, c_id, msg + f": an amount the well cannot take must raise {'VolumeOverflowError' if kind == 'add' else 'VolumeUnderflowError'}, not {cls}", where=w)
+                else:
+                    ctx.rep.inconclusive(rule, c_id, msg + ": cannot decide whether valid amounts (>= 0, up to +inf) are turned away before the limit comparison", where=w)
+        ctx.rep.floor(rule, f"pre-limit checks on the amounts in Labware.{kind}", n_terms, 1)
+
+
+def _replace_key(e: ast.AST, k: str, by: ast.AST) -> ast.AST:
+    class T(ast.NodeTransformer):
+        def generic_visit(self, n):
+            if key(n) == k:
+                return by
+            return super().generic_visit(n)
+
+    import copy
+
+    return T().visit(copy.deepcopy(e))
 
 
 def _elem(head: int, seq: ast.AST) -> ast.AST:
@@ -394,9 +518,68 @@ def no_swallow(ctx) -> None:
                     ctx.rep.refuted(rule, f"{f.qualname}/handler:{stmt_key(h.type) if h.type else 'bare'}",
                                     "an except-handler around a tracked volume operation catches VolumeViolationException and does not re-raise it unchanged: "
                                     "the violation is swallowed or its type (VolumeOverflowError/VolumeUnderflowError) is lost", where=f.where(h))
-    ctx.rep.notes.append(f"C02.no-swallow: {n_handlers} except-handlers enumerated")
+    # a `finally:` that leaves through return/break/continue discards the in-flight exception; so does contextlib.suppress
+    n_finally = 0
+    for f in ctx.prog.all_functions():
+        for t in [s for s in own_walk(f.node) if isinstance(s, ast.Try) and s.finalbody]:
+            n_finally += 1
+            jumps = _finally_jumps(t.finalbody)
+            if not jumps:
+                ctx.rep.holds(rule, f"{f.qualname}/finally", "finally block falls through: an in-flight exception continues to propagate", where=f.where(t))
+                continue
+            fv = ctx.fv(f)
+            if _body_tracks(ctx, fv, t.body):
+                ctx.rep.refuted(rule, f"{f.qualname}/finally:{type(jumps[0]).__name__.lower()}",
+                                f"`{stmt_key(jumps[0])}` inside a finally block around a tracked volume operation discards the in-flight "
+                                "VolumeViolationException: the call returns normally after a rejected operation", where=f.where(jumps[0]))
+            else:
+                ctx.rep.holds(rule, f"{f.qualname}/finally", "try body performs no tracked volume operation", where=f.where(t))
+        for w_ in [s for s in own_walk(f.node) if isinstance(s, (ast.With, ast.AsyncWith))]:
+            for item in w_.items:
+                e = item.context_expr
+                if isinstance(e, ast.Call) and call_fname(e) == "suppress":
+                    fv = ctx.fv(f)
+                    if _body_tracks(ctx, fv, w_.body):
+                        ctx.rep.refuted(rule, f"{f.qualname}/suppress", "contextlib.suppress around a tracked volume operation swallows the violation", where=f.where(w_))
+    ctx.rep.notes.append(f"C02.no-swallow: {n_handlers} except-handlers, {n_finally} finally blocks enumerated")
     if n_handlers == 0:
         ctx.rep.holds(rule, "package", "no except-handlers in the package")
+
+
+def _finally_jumps(body):
+    """return / break / continue statements that leave the finally block (break/continue of loops nested inside it do not)."""
+    out = []
+
+    def visit(stmts, in_loop):
+        for s in stmts:
+            if isinstance(s, ast.Return):
+                out.append(s)
+            elif isinstance(s, (ast.Break, ast.Continue)) and not in_loop:
+                out.append(s)
+            elif isinstance(s, (ast.FunctionDef, ast.AsyncFunctionDef, ast.ClassDef)):
+                continue
+            else:
+                for fld in ("body", "orelse", "finalbody"):
+                    sub = getattr(s, fld, None)
+                    if isinstance(sub, list):
+                        visit(sub, in_loop or (isinstance(s, (ast.For, ast.While, ast.AsyncFor)) and fld == "body"))
+                for h in getattr(s, "handlers", []) or []:
+                    visit(h.body, in_loop)
+                for c_ in getattr(s, "cases", []) or []:
+                    visit(c_.body, in_loop)
+
+    visit(body, False)
+    return out
+
+
+def _body_tracks(ctx, fv, body) -> bool:
+    for s in body:
+        for x in [s] + [x for x in own_walk(s) if isinstance(x, ast.stmt)]:
+            for nid in fv.cfg.stmt_nodes.get(id(x), []):
+                effs = ctx.E.node_effects(fv, fv.cfg.nodes[nid])
+                if any(e.kind == "VOLWRITE" or (e.kind == "RAISE" and e.arg.startswith("Volume")) for e in effs):
+                    return True
+    return False
 
 
 def _handler_always_raises(fv, h: ast.ExceptHandler) -> bool:
